@@ -495,7 +495,7 @@ package stree
 //@   requires [C03,C04] treeInvRO(t)
 //@   ensures [C03,C04] ord: result != nil ==> ordPath(result.path, t.compare)
 //@   ensures [C03,C04] empty: t.root == nil ==> result == nil
-//@   ensures [C03,C04] root: t.root != nil ==> result != nil && fresh(result) && len(result.path) == 1 && result.path[0] == t.root && pathOK(result)
+//@   ensures [C03,C04] root: t.root != nil ==> result != nil && fresh(result) && fresh(result.path) && len(result.path) == 1 && result.path[0] == t.root && pathOK(result)
 //@
 // In-order traversal: the keys of the subtree are yielded in strictly ascending rank order, each the stored
 // representative of its class, all of them when the callback never says stop (the count equals the node count).
